@@ -6,12 +6,13 @@
 //! their file-system calls, injects faults and process deaths, and evaluates the invariants
 //! on the real directory at every step.
 
+use crate::common::{Probes, Prop, RunReport};
 use crate::prng::{fnv1a, mix, Rng, FNV_INIT};
 use crate::sched::{self, is_crash, is_syscall, ActorSpec, Event, Policy, StepCtx, Violation};
 use crate::seam::{self, Action, Actor, Decision, Op, OpKind, World};
-use crate::tape::{Tape, TapeEntry};
+use crate::tape::Tape;
 use serde::{Deserialize, Serialize};
-use std::collections::{BTreeMap, HashMap};
+use std::collections::HashMap;
 use std::fs;
 use std::rc::Rc;
 use std::sync::{Arc, Mutex};
@@ -425,29 +426,6 @@ fn reader_body(reads: u8) -> Box<dyn FnOnce(&Actor) + Send + 'static> {
 // policy: faults + invariants
 // ---------------------------------------------------------------------------------------
 
-#[derive(Default, Clone, Debug, Serialize, Deserialize)]
-pub struct Probes {
-    pub faults: BTreeMap<String, u64>,
-    pub reach: BTreeMap<String, u64>,
-}
-
-impl Probes {
-    pub fn hit(&mut self, k: &str) {
-        *self.reach.entry(k.to_string()).or_insert(0) += 1;
-    }
-    pub fn fault(&mut self, k: &str) {
-        *self.faults.entry(k.to_string()).or_insert(0) += 1;
-    }
-    pub fn merge(&mut self, o: &Probes) {
-        for (k, v) in o.faults.iter() {
-            *self.faults.entry(k.clone()).or_insert(0) += v;
-        }
-        for (k, v) in o.reach.iter() {
-            *self.reach.entry(k.clone()).or_insert(0) += v;
-        }
-    }
-}
-
 struct ActorTrack {
     is_writer: bool,
     api: Option<Api>,
@@ -477,6 +455,12 @@ pub struct C19Policy {
     pub probes: Probes,
     step_now: u32,
     fault_free: bool,
+}
+
+/// Error texts carry the sandbox path and random temporary names; messages must not.
+fn scrub(t: &str) -> String {
+    let mut names = sched::TempNames::new();
+    names.norm_text(t)
 }
 
 fn trim_eq(a: &[u8], b: &[u8]) -> bool {
@@ -705,7 +689,7 @@ impl Policy for C19Policy {
                                      surrounding whitespace, yet the call failed: {}",
                                     actor,
                                     t.api.unwrap(),
-                                    info
+                                    scrub(info)
                                 );
                                 self.deferred = Some(self.viol("C19.4-same-contents-fails", m));
                             }
@@ -714,7 +698,9 @@ impl Policy for C19Policy {
                             let api = self.tracks[actor].api;
                             let m = format!(
                                 "writer {} ({:?}) failed although no fault was injected: {}",
-                                actor, api, info
+                                actor,
+                                api,
+                                scrub(info)
                             );
                             if self.deferred.is_none() {
                                 self.deferred = Some(self.viol("C19.0-fault-free-call-fails", m));
@@ -761,7 +747,8 @@ impl Policy for C19Policy {
                                     "C19.2-reader-error",
                                     format!(
                                         "reader {} failed without an injected fault: {}",
-                                        actor, info
+                                        actor,
+                                        scrub(info)
                                     ),
                                 ));
                             }
@@ -967,20 +954,6 @@ impl Policy for C19Policy {
 // one run
 // ---------------------------------------------------------------------------------------
 
-#[derive(Serialize, Deserialize, Clone, Debug)]
-pub struct RunReport {
-    pub violation: Option<Violation>,
-    pub events: Vec<Event>,
-    pub tape: Vec<TapeEntry>,
-    pub log_hash: u64,
-    pub nontrivial: bool,
-    pub truncated: bool,
-    pub steps: u32,
-    pub sim_ns: u64,
-    pub probes: Probes,
-    pub panics: Vec<(usize, String)>,
-}
-
 fn analyse(wl: &Workload, events: &[Event], initial: &Option<Vec<u8>>, probes: &mut Probes) -> bool {
     // non-trivial rule: some writer created its temp file with contents different from the
     // initial ones and, before that writer renamed (or died), another actor made a mediated
@@ -1072,7 +1045,13 @@ pub fn run_one(wl: &Workload, tape: &mut Tape, entropy_seed: u64) -> Result<RunR
             name: format!("writer{}", i),
             entropy_seed: mix(entropy_seed, i as u64),
             skew_ns: *wl.skews_ns.get(i).unwrap_or(&0),
-            stack_bytes: 64 << 20,
+            // small stacks are recycled by glibc's stack cache; the compile writers only
+            // ever compile a three-line program
+            stack_bytes: if matches!(w.api, Api::CompileClvm | Api::PyPath) {
+                16 << 20
+            } else {
+                1 << 20
+            },
             body: writer_body(i, w.clone()),
         });
     }
@@ -1082,7 +1061,7 @@ pub fn run_one(wl: &Workload, tape: &mut Tape, entropy_seed: u64) -> Result<RunR
             name: format!("reader{}", r),
             entropy_seed: mix(entropy_seed, i as u64),
             skew_ns: *wl.skews_ns.get(i).unwrap_or(&0),
-            stack_bytes: 8 << 20,
+            stack_bytes: 1 << 20,
             body: reader_body(wl.reader_reads),
         });
     }
@@ -1136,7 +1115,7 @@ pub fn run_one(wl: &Workload, tape: &mut Tape, entropy_seed: u64) -> Result<RunR
             name: "recovery".to_string(),
             entropy_seed: mix(entropy_seed, 999),
             skew_ns: 0,
-            stack_bytes: 8 << 20,
+            stack_bytes: 1 << 20,
             body: writer_body(0, lw.writers[0].clone()),
         }];
         let out2 = sched::run(world2.clone(), specs2, tape, &mut pol2, 64, Duration::from_secs(60))
@@ -1176,12 +1155,14 @@ pub fn run_one(wl: &Workload, tape: &mut Tape, entropy_seed: u64) -> Result<RunR
         steps: events.len() as u32,
         events,
         tape: tape.rec.clone(),
+        distinct_key: log_hash,
         log_hash,
         nontrivial,
         truncated: out.truncated,
         sim_ns,
         probes,
         panics: out.panics,
+        detail: serde_json::json!({"context_switches": out.switches}),
     })
 }
 
@@ -1196,5 +1177,188 @@ impl Policy for LivenessPolicy {
     }
     fn finish(&mut self, _w: &Arc<World>, _e: &[Event]) -> Result<(), Violation> {
         Ok(())
+    }
+}
+
+// ---------------------------------------------------------------------------------------
+// Prop
+// ---------------------------------------------------------------------------------------
+
+pub struct C19;
+
+fn shrink_data(d: &DataSpec) -> Vec<DataSpec> {
+    let mut v = Vec::new();
+    match d {
+        DataSpec::Raw { tag, size, ws } => {
+            if *size > 12 {
+                v.push(DataSpec::Raw { tag: *tag, size: 12, ws: *ws });
+                v.push(DataSpec::Raw { tag: *tag, size: size / 2, ws: *ws });
+            }
+            if *ws != 0 {
+                v.push(DataSpec::Raw { tag: *tag, size: *size, ws: 0 });
+            }
+        }
+        DataSpec::Compiled { tag, modern, ws } => {
+            if *modern {
+                v.push(DataSpec::Compiled { tag: *tag, modern: false, ws: *ws });
+            }
+            if *ws != 0 {
+                v.push(DataSpec::Compiled { tag: *tag, modern: *modern, ws: 0 });
+            }
+        }
+    }
+    v
+}
+
+impl Prop for C19 {
+    type W = Workload;
+    fn id() -> &'static str {
+        "C19"
+    }
+    fn init_process() {
+        // force lazy statics of the compiler on a non-actor thread, and the reference
+        // outputs of every program a compile writer may be given
+        for tag in 1..=6u32 {
+            for modern in [false, true] {
+                let _ = compiled_reference(tag, modern);
+            }
+        }
+    }
+    fn generate(rng: &mut Rng, thorough: bool, _idx: u64) -> Workload {
+        generate(rng, thorough)
+    }
+    fn run(w: &Workload, tape: &mut Tape, ent: u64) -> Result<RunReport, String> {
+        run_one(w, tape, ent)
+    }
+    fn shrink(w: &Workload) -> Vec<Workload> {
+        let mut out = Vec::new();
+        for i in 0..w.writers.len() {
+            if w.writers.len() > 1 {
+                let mut c = w.clone();
+                c.writers.remove(i);
+                if i < c.skews_ns.len() {
+                    c.skews_ns.remove(i);
+                }
+                out.push(c);
+            }
+        }
+        if w.readers > 0 {
+            let mut c = w.clone();
+            c.readers = 0;
+            out.push(c);
+            if w.readers > 1 {
+                let mut c = w.clone();
+                c.readers = 1;
+                out.push(c);
+            }
+        }
+        if w.reader_reads > 1 {
+            let mut c = w.clone();
+            c.reader_reads = 1;
+            out.push(c);
+        }
+        if w.fault_pm > 0 || w.crash_pm > 0 {
+            let mut c = w.clone();
+            c.fault_pm = 0;
+            c.crash_pm = 0;
+            out.push(c);
+        }
+        if w.ro_dir {
+            let mut c = w.clone();
+            c.ro_dir = false;
+            out.push(c);
+        }
+        if w.litter > 0 {
+            let mut c = w.clone();
+            c.litter = 0;
+            out.push(c);
+        }
+        if w.clock_mode != 0 {
+            let mut c = w.clone();
+            c.clock_mode = 0;
+            out.push(c);
+        }
+        if w.skews_ns.iter().any(|x| *x != 0) {
+            let mut c = w.clone();
+            c.skews_ns = vec![0; w.skews_ns.len()];
+            out.push(c);
+        }
+        if w.out_mtime_rel != 0 {
+            let mut c = w.clone();
+            c.out_mtime_rel = 0;
+            out.push(c);
+        }
+        match &w.initial {
+            InitialOut::Absent => {}
+            InitialOut::File(d) => {
+                let mut c = w.clone();
+                c.initial = InitialOut::Absent;
+                out.push(c);
+                for d2 in shrink_data(d) {
+                    let mut c = w.clone();
+                    c.initial = InitialOut::File(d2);
+                    out.push(c);
+                }
+            }
+            InitialOut::Symlink(d) => {
+                let mut c = w.clone();
+                c.initial = InitialOut::File(d.clone());
+                out.push(c);
+            }
+        }
+        for i in 0..w.writers.len() {
+            if w.writers[i].api != Api::Gentle && w.writers[i].api != Api::Atomic {
+                let mut c = w.clone();
+                c.writers[i].api = Api::Gentle;
+                out.push(c);
+            }
+            if let DataSpec::Compiled { .. } = w.writers[i].data {
+                if matches!(w.writers[i].api, Api::Gentle | Api::Atomic) {
+                    let mut c = w.clone();
+                    c.writers[i].data = DataSpec::Raw { tag: 100 + i as u32 * 16, size: 12, ws: 0 };
+                    out.push(c);
+                }
+            }
+            for d2 in shrink_data(&w.writers[i].data) {
+                let mut c = w.clone();
+                c.writers[i].data = d2;
+                out.push(c);
+            }
+        }
+        out
+    }
+    fn runs_for_tier(thorough: bool) -> u64 {
+        if thorough {
+            3_000_000
+        } else {
+            160_000
+        }
+    }
+    fn rule() -> &'static str {
+        "one evaluation = one simulated run: a seeded workload (history of the output path, 1..8 writer processes running the real atomic_write_file / gentle_overwrite / compile_clvm / Python-entry-point sequence, 0..3 readers) executed under a seeded schedule with injected faults and process deaths, invariants C19.1-C19.5 evaluated on the real directory at every scheduling step. Non-trivial = some writer created its temporary file with contents different from the initial ones and, before that writer's rename (or death), another actor performed a mediated file-system call or a fault/crash fired. Distinct = distinct hash of the whole normalised event log (actor, call, normalised paths, length, injected action, result) among non-trivial runs."
+    }
+    fn assumptions() -> Vec<String> {
+        vec![
+            "a simulated process is a thread of the harness; writers share nothing but the directory, so this is faithful for C19".to_string(),
+            "process death is modelled by ghosting: from the crash instant every file-system call of the dead actor fails without reaching the kernel; power loss (unsynced data vanishing) is not modelled because C19 states process death only".to_string(),
+            "the disk is the kernel's tmpfs: rename/O_EXCL/unlink semantics are the real ones; interleavings are explored at system-call granularity, each call being atomic as the kernel makes it".to_string(),
+            "exploration samples schedules and fault placements; a clean batch is evidence, not proof".to_string(),
+        ]
+    }
+    fn real_vs_stub() -> serde_json::Value {
+        serde_json::json!({
+            "real": ["chialisp::util::atomic_write_file", "chialisp::util::gentle_overwrite", "chialisp::classic::clvm_tools::clvmc::compile_clvm (incl. dep_util::newer, the compiler itself)", "py/api.rs run_clvm_compilation re-enacted call for call (read, compile_clvm_text, node_to_bytes, gentle_overwrite)", "tempfile 3.22 (NamedTempFile, persist) built with rustix_use_libc", "std::fs", "kernel tmpfs"],
+            "simulated": ["scheduler (who performs the next file-system call)", "clock (clock_gettime, file mtimes)", "entropy (getrandom)", "fault decisions per call", "process death"],
+            "not_run": ["pyo3 and wasm bindings themselves"]
+        })
+    }
+    fn bounds(thorough: bool) -> serde_json::Value {
+        serde_json::json!({
+            "writers": if thorough { "1..8" } else { "1..4" },
+            "readers": "0..3",
+            "payload_bytes": if thorough { "0..1 MiB" } else { "0..70000" },
+            "max_steps_per_run": 4000,
+            "max_faults_per_run": "1..4 (plus static read-only-directory configuration)"
+        })
     }
 }
